@@ -93,6 +93,8 @@ type Run struct {
 	// CompileFailKind, when set, makes a case of this check that does not compile a violation of
 	// this property (C17: the hook names are part of the contract) instead of a skipped case.
 	CompileFailKind string
+	// OwnSkipHandling: the check classifies cases without output / that do not compile itself (C01, C13, C18)
+	OwnSkipHandling bool
 }
 
 func newRun(id, tier string, seed int) *Run {
@@ -316,6 +318,11 @@ func (r *Run) generate(cases []*space.Case) ([]*scratch.Built, string, error) {
 	for _, b := range built {
 		if b.Skip != "" {
 			r.Skipped = append(r.Skipped, b.Label+": "+b.Skip)
+			if b.Gogo != nil && b.Gogo.ExitCode == 0 && b.TF != nil && !r.OwnSkipHandling {
+				// protoc-gen-gogo accepts the descriptor but the plugin produced no file: the converters this
+				// check is about do not exist for the case
+				r.addFinding(&Finding{Property: r.ID, Kind: "case-not-generated", Shape: caseShape(b.Case), Label: b.Label, Msg: "the plugin produced no file for this case, so the property cannot hold for it: " + lastLines(b.TF.Stderr, 3), Count: 1, Witness: witnessOf(b)})
+			}
 		}
 	}
 	bin, err := r.Mod.Build(nil)
@@ -328,7 +335,10 @@ func (r *Run) generate(cases []*space.Case) ([]*scratch.Built, string, error) {
 				r.addFinding(&Finding{Property: r.ID, Kind: r.CompileFailKind, Shape: caseShape(b.Case), Label: b.Label, Msg: "generated code does not compile against the documented hook names / types:\n" + firstLines(b.CompileErr, 6), Count: 1, Witness: witnessOf(b)})
 				continue
 			}
-			r.Skipped = append(r.Skipped, b.Label+": generated code does not compile (reported by C01)")
+			r.Skipped = append(r.Skipped, b.Label+": generated code does not compile")
+			if !r.OwnSkipHandling {
+				r.addFinding(&Finding{Property: r.ID, Kind: "case-does-not-compile", Shape: caseShape(b.Case), Label: b.Label, Msg: "the generated code of this case does not compile, so the property cannot hold for it (C01 reports the compile error as such):\n" + firstLines(b.CompileErr, 6), Count: 1, Witness: witnessOf(b)})
+			}
 		}
 	}
 	return built, bin, nil
